@@ -86,8 +86,13 @@ Fixpoint emit_clauses (base : N) (cs : list N) (i : input) (o : observation) : l
   end.
 
 (* (case index, kind, position): kind 0 = the model's trace differs from the implementation's at that step;
-   kind c in 1..6 = spec clause c fails on the implementation's observation at that step (only inside the domain);
-   kind 101 / 102 = the guard of known finding D19 / D20 holds for this input *)
+   kind c in 1..7 = spec clause c fails on the implementation's observation at that step (only inside the domain);
+   clauses 6 (clean_residual) and 7 (yields_residual) are evaluated on every case like the others and are the clause of
+   no known finding: a failure of either is a violation whatever guard holds;
+   kind 101 = the guard of known finding D19 holds for this input (kf_overdue: a ghost field of the model's run);
+   kind 102 = the guard of known finding D20 holds for this case, read off the schedule and the IMPLEMENTATION's
+   observation (kf_inflight_obs: some unsubscribe call started executing with a renewal of the renewal task in flight;
+   outside it clause 5 is a theorem, C12_clean_shutdown_partial_obs) *)
 Fixpoint report (base : N) (cases : list (input * observation)) : list (N * N * N) :=
   match cases with
   | [] => []
@@ -95,11 +100,11 @@ Fixpoint report (base : N) (cases : list (input * observation)) : list (N * N * 
       (match first_diff 0 (model_run i) o with Some p => [(base, 0%N, p)] | None => [] end) ++
       (if in_domain i then emit_clauses base all_clauses i o else []) ++
       (if kf_overdue i then [(base, 101%N, 0%N)] else []) ++
-      (if kf_inflight i then [(base, 102%N, 0%N)] else []) ++
+      (if kf_inflight_obs i o then [(base, 102%N, 0%N)] else []) ++
       report (N.succ base) r
   end.
 
 Definition replay (c : input * observation) :=
   (model_run (fst c), first_diff 0 (model_run (fst c)) (snd c),
    map (fun k => (k, clause_fail k (fst c) (snd c))) all_clauses,
-   (in_domain (fst c), kf_overdue (fst c), kf_inflight (fst c), lapse_premise (fst c))).
+   (in_domain (fst c), kf_overdue (fst c), kf_inflight (fst c), lapse_premise (fst c), kf_inflight_obs (fst c) (snd c))).
